@@ -306,6 +306,14 @@ class C13(Check):
                 e = gen_cron(rng, loc if steer else None)
                 t = mk_task(e, off)
                 self._one(cr, e, off, t, us, rng, check_seconds=True)
+                if rng.random() < 0.35:
+                    # the same expression under other offsets at the same instant (several schedules
+                    # sharing one expression is the normal case in a deployment)
+                    others = [None, rng.choice(ZONES), rng.choice(ZONES), rng.choice([3600, -18000, 19800])]
+                    rng.shuffle(others)
+                    for off2 in others:
+                        self._one(cr, e, off2, mk_task(e, off2), us, rng, check_seconds=False)
+                        cr.counters["same_expr_other_offset"] += 1
                 restricted = sum(1 for f in e.split(" ") if f != "*")
                 if restricted >= 2 or off is not None:
                     cr.nontrivial = True
